@@ -50,6 +50,21 @@ CHECKS = {
           "Generated histories; snapshot(before) == snapshot(after) for every store that returns an error.",
           "event_bytes excluded (orphan bytes of failed stores are unreachable).",
           "DESIGN.md section 4 C12"),
+  "C13": ("fault_enumeration",
+          "fault injection by enumeration: generated histories run in child processes that SIGKILL themselves at the k-th named hook point, for every k (plus random-instant kills in the thorough tier); oracle = reopen succeeds, snapshot equals the reference state before or after the interrupted call, continuation equals the uninterrupted reference run",
+          "Every named kill point of every generated history is executed (complete per history): reopen must succeed, the observable state must be the reference state before or after the interrupted call (vanish: in between), all retrievable events intact, and the rest of the history must behave as in the uninterrupted run.",
+          "Process death (SIGKILL), not power loss; kill instants are the compiled-in points (incl. a half-copied append) plus sampled random instants.",
+          "DESIGN.md section 4 C13"),
+  "C14": ("exploration",
+          "schedule exploration with a controller that owns the interleaving at hook-point granularity (generated, shrinkable schedules) + serial-replay (linearizability-style) oracle in lock-acquisition order with per-read prefix windows; free-running multi-core stress in the thorough tier",
+          "Generated (threads x ops, schedule) cases over a colliding 8-event universe; writer results and the final state must equal a serial replay in lock order and every read must equal the answer for some committed prefix inside its time window.",
+          "Granularity = named points; only the LMDB writer lock is modelled (anything else blocking => inconclusive, exit 2); no file growth during a case.",
+          "DESIGN.md section 4 C14"),
+  "C15": ("exploration",
+          "stateful property-based testing with a forced-layout trick (PROT_NONE page mapped with MAP_FIXED_NOREPLACE behind the mapping so a moving remap is deterministic); oracle = address identity and byte equality of fresh lookups for every held reference after every step",
+          "Generated sequences of store / take-reference / grow steps (also from a second thread); every held reference must keep its address and bytes. On the pinned tree the mapping moves at growth: recorded as an open known finding (KNOWN-FINDING line), other violations of the property are still reported.",
+          "Address identity of a fresh lookup stands in for validity of the old reference; the stale reference is never dereferenced.",
+          "DESIGN.md section 4 C15"),
   "C16": ("exploration",
           "stateful property-based testing: snapshot equality across real close+reopen and across rebuild (incl. repeated rebuilds), compaction bound, backup opened through a copy",
           "Generated histories with Reopen/Rebuild at random positions; the full snapshot must be identical before/after, event_bytes within the padding bound, backup files present and equal to the pre-rebuild state.",
